@@ -37,8 +37,51 @@ type OpA struct {
 }
 
 type CaseA struct {
-	Agents int   `json:"agents"`
-	Ops    []OpA `json:"ops"`
+	Agents  int      `json:"agents"`
+	IDs     []uint32 `json:"ids,omitempty"`     // agent ids (absent: fixed small ids)
+	Parents []int    `json:"parents,omitempty"` // Parents[i] < i: agent i is an SMB pivot child of that agent; -1 / absent: directly connected
+	Ops     []OpA    `json:"ops"`
+}
+
+// idClassA names the class of an agent id (the NameID is its %08x rendering, which code
+// may parse back with too narrow an integer type).
+func idClassA(id uint32) string {
+	switch {
+	case id == 0x7fffffff:
+		return "2^31-1"
+	case id == 0x80000000:
+		return "2^31"
+	case id == 0xffffffff:
+		return "2^32-1"
+	case id < 0x10000:
+		return "leading-zeros"
+	case id >= 0x80000000:
+		return ">=2^31"
+	}
+	return "<2^31"
+}
+
+func genIDA(t *rapid.T, used map[uint32]bool) uint32 {
+	var id uint32
+	switch agentfx.Weighted(t, "idclass", 3, 3, 1, 1, 1, 2) {
+	case 0:
+		id = rapid.Uint32Range(0x00010000, 0x7ffffffe).Draw(t, "id")
+	case 1:
+		id = rapid.Uint32Range(0x80000001, 0xfffffffe).Draw(t, "id")
+	case 2:
+		id = 0x7fffffff
+	case 3:
+		id = 0x80000000
+	case 4:
+		id = 0xffffffff
+	default:
+		id = rapid.Uint32Range(1, 0xffff).Draw(t, "id")
+	}
+	for used[id] || id == 0 {
+		id = id*31 + 7
+	}
+	used[id] = true
+	return id
 }
 
 var (
@@ -51,14 +94,34 @@ var (
 
 func genA(t *rapid.T) CaseA {
 	var c CaseA
-	c.Agents = rapid.IntRange(1, 3).Draw(t, "agents")
+	c.Agents = 1 + agentfx.Bits(t, "agents", 2)
+	used := map[uint32]bool{}
+	depth := make([]int, c.Agents)
+	for i := 0; i < c.Agents; i++ {
+		c.IDs = append(c.IDs, genIDA(t, used))
+		p := -1
+		if i > 0 && agentfx.Weighted(t, "pivot", 1, 1) == 1 {
+			// prefer the previous agent: chains grow deep
+			p = i - 1
+			if agentfx.Weighted(t, "parent", 2, 1) == 1 {
+				p = agentfx.Bits(t, "parentidx", 2) % i
+			}
+			if depth[p] >= 3 {
+				p = -1
+			}
+		}
+		if p >= 0 {
+			depth[i] = depth[p] + 1
+		}
+		c.Parents = append(c.Parents, p)
+	}
 	bigLeft := 0
 	if agentfx.Weighted(t, "bigcase", 70, 30) == 1 {
 		bigLeft = rapid.IntRange(1, 3).Draw(t, "nbig")
 	}
 	n := rapid.IntRange(1, 24).Draw(t, "nops")
 	for i := 0; i < n; i++ {
-		op := OpA{Agent: rapid.IntRange(0, c.Agents-1).Draw(t, "agent")}
+		op := OpA{Agent: agentfx.Bits(t, "agent", 2) % c.Agents}
 		switch k := agentfx.Weighted(t, "kind", 32, 22, 28, 10, 8); {
 		case k == 1:
 			op.Kind = "task"
@@ -174,7 +237,15 @@ func uploadInfo(name string, content []byte, req uint32, demonID string) map[str
 	}
 }
 
+func b2i(b bool) int {
+	if b {
+		return 1
+	}
+	return 0
+}
+
 type obsA struct {
+	pivotDepth [4]bool
 	maxQueued                   int
 	cut, escape, edge, notAsked bool
 	batches, multi, kinds       int
@@ -183,8 +254,8 @@ type obsA struct {
 
 var lastA obsA
 
-func classSize(op OpA, queuedWire int) (n int, large bool) {
-	own := 4
+func classSize(op OpA, queuedWire, wrap int) (n int, large bool) {
+	own := 4 + wrap
 	if op.Tag {
 		own = 8
 	}
@@ -230,7 +301,19 @@ func (m *agentModel) queuedWire() int {
 
 func checkA(c CaseA) *core.Violation {
 	lastA = obsA{}
-	w, err := newWorld(c.Agents)
+	ids, parents := c.IDs, c.Parents
+	for i := len(ids); i < c.Agents; i++ {
+		ids = append(ids, 0x0a0b0001+uint32(i)*0x0101)
+	}
+	for i := len(parents); i < c.Agents; i++ {
+		parents = append(parents, -1)
+	}
+	for i := range parents {
+		if parents[i] >= i {
+			parents[i] = -1
+		}
+	}
+	w, err := newForest(ids[:c.Agents], parents[:c.Agents])
 	if err != nil {
 		return core.V("harness|fixture", "%v", err)
 	}
@@ -238,7 +321,13 @@ func checkA(c CaseA) *core.Violation {
 	for i, op := range c.Ops {
 		g := op.Agent % c.Agents
 		a := w.ses[g].A
-		m := w.mod[g]
+		// a task for a pivot agent has to come out, wrapped, at the check-in of the directly
+		// connected agent at the top of its chain, in queue order with everything else queued there
+		m := w.mod[w.root(g)]
+		via := w.via(g)
+		if len(via) > 1 && op.Kind != "checkin" {
+			lastA.pivotDepth[len(via)-1] = true
+		}
 		req := reqOf(i)
 		switch op.Kind {
 		case "task":
@@ -257,10 +346,10 @@ func checkA(c CaseA) *core.Violation {
 				return core.V("a|prepare|request-id", "TaskPrepare(%s) produced request id %#x for TaskID %08X", op.Tmpl, job.RequestID, req)
 			}
 			a.AddJobToQueue(*job)
-			m.q = append(m.q, &entry{kind: eExact, cmd: uint32(cmd), req: req, pre: body, pure: pure, op: i})
+			m.q = append(m.q, &entry{kind: eExact, cmd: uint32(cmd), req: req, pre: body, pure: pure, op: i, via: via})
 			lastA.kinds |= 1
 		case "raw":
-			n, _ := classSize(op, m.queuedWire())
+			n, _ := classSize(op, m.queuedWire(), 32*(len(via)-1)*b2i(len(via) > 1))
 			var data []interface{}
 			var pre []byte
 			pure := 0
@@ -269,7 +358,7 @@ func checkA(c CaseA) *core.Violation {
 				pre = binary.LittleEndian.AppendUint32(pre, uint32(i+1))
 				pure += 4
 			}
-			e := &entry{kind: eExact, cmd: op.Cmd, req: req, op: i}
+			e := &entry{kind: eExact, cmd: op.Cmd, req: req, op: i, via: via}
 			if n >= 0 {
 				data = append(data, buf[op.Off:op.Off+n])
 				pre = binary.LittleEndian.AppendUint32(pre, uint32(n))
@@ -287,19 +376,21 @@ func checkA(c CaseA) *core.Violation {
 			pre = binary.LittleEndian.AppendUint32(pre, uint32(i+1))
 			pre = binary.LittleEndian.AppendUint32(pre, uint32(op.Size))
 			a.AddJobToQueue(agent.Job{Command: agent.COMMAND_SOCKET, Data: data})
-			m.q = append(m.q, &entry{kind: eExact, cmd: agent.COMMAND_SOCKET, req: 0, pre: pre, off: op.Off, n: op.Size, pure: 8 + op.Size, op: i})
+			m.q = append(m.q, &entry{kind: eExact, cmd: agent.COMMAND_SOCKET, req: 0, pre: pre, off: op.Off, n: op.Size, pure: 8 + op.Size, op: i, via: via})
 			lastA.kinds |= 4
 		case "upload":
 			content := buf[op.Off : op.Off+op.Size]
 			msg := map[string]string{}
 			job, err := a.TaskPrepare(agent.COMMAND_FS, uploadInfo(op.Text, content, req, a.NameID), &msg, "client", w.rec)
 			// the chunks are queued by TaskPrepare itself
-			m.q = append(m.q, &entry{kind: eChunks, content: content, op: i})
+			m.q = append(m.q, &entry{kind: eChunks, content: content, op: i, via: via})
 			if err != nil || job == nil {
 				return core.V("a|prepare|upload-failed", "TaskPrepare(fs upload) failed: %v", err)
 			}
 			a.AddJobToQueue(*job)
-			m.q = append(m.q, uploadUser(op.Text, req, i))
+			uu := uploadUser(op.Text, req, i)
+			uu.via = via
+			m.q = append(m.q, uu)
 			lastA.kinds |= 8
 		case "checkin":
 			if q := m.queuedAtLeast(); q > lastA.maxQueued {
@@ -308,7 +399,7 @@ func checkA(c CaseA) *core.Violation {
 			if !op.Ask {
 				lastA.notAsked = true
 			}
-			bi, v := w.checkIn("a", g, op.Ask)
+			bi, v := w.checkIn("a", w.root(g), op.Ask)
 			if v != nil {
 				return v
 			}
@@ -339,6 +430,9 @@ func (o *obsA) note(bi batchInfo) {
 // drainObs is drain() that also records what the draining check-ins showed.
 func (w *world) drainObs(sub string, o *obsA) *core.Violation {
 	for g := range w.ses {
+		if w.parent[g] >= 0 {
+			continue
+		}
 		m := w.mod[g]
 		for !m.empty() {
 			before, beforeQ := m.deliv, len(m.q)
@@ -388,6 +482,43 @@ func classifyA(c CaseA) core.Class {
 	}
 	sort.Strings(cl.Labels)
 	cl.Labels = append(cl.Labels, "maxqueued:"+bucket(o.maxQueued), fmt.Sprintf("agents:%d", c.Agents))
+	// where tasks were aimed: directly connected agents or pivot agents at depth N, and the id
+	// classes on the hops of the chains that carried a task (first hop excluded: its id is not
+	// rendered into any wrapping)
+	maxDepth, bigHop := 0, false
+	hopSeen := map[string]bool{}
+	direct := false
+	for _, op := range c.Ops {
+		if op.Kind == "checkin" {
+			continue
+		}
+		g, d := op.Agent%c.Agents, 0
+		for x := g; x < len(c.Parents) && c.Parents[x] >= 0 && c.Parents[x] < x; x = c.Parents[x] {
+			d++
+			if x < len(c.IDs) {
+				hopSeen[idClassA(c.IDs[x])] = true
+				if c.IDs[x] >= 0x80000000 {
+					bigHop = true
+				}
+			}
+		}
+		if d == 0 {
+			direct = true
+		} else if d > maxDepth {
+			maxDepth = d
+		}
+		if l := fmt.Sprintf("target:pivot-depth-%d", d); d > 0 && !seen[l] {
+			seen[l] = true
+			cl.Labels = append(cl.Labels, l)
+		}
+	}
+	if direct {
+		cl.Labels = append(cl.Labels, "target:direct")
+	}
+	for k := range hopSeen {
+		cl.Labels = append(cl.Labels, "pivot-hop-id:"+k)
+	}
+	sort.Strings(cl.Labels)
 	if o.cut {
 		cl.Labels = append(cl.Labels, "size-cut")
 	}
@@ -404,7 +535,7 @@ func classifyA(c CaseA) core.Class {
 		cl.Labels = append(cl.Labels, "prepare-error")
 	}
 	cl.NonTrivial = o.maxQueued >= 2 || o.cut || o.escape
-	cl.Fingerprint = fmt.Sprintf("ag=%d|q=%s|cut=%v|esc=%v|edge=%v|multi=%v|kinds=%x|noask=%v", c.Agents, bucket(o.maxQueued), o.cut, o.escape, o.edge, o.multi > 0, o.kinds, o.notAsked)
+	cl.Fingerprint = fmt.Sprintf("pd=%d|bighop=%v|q=%s|cut=%v|esc=%v|edge=%v|kinds=%x", maxDepth, bigHop, bucket(o.maxQueued), o.cut, o.escape, o.edge, o.kinds)
 	return cl
 }
 
@@ -412,7 +543,7 @@ func TestC04a(t *testing.T) {
 	big()
 	core.Run(t, core.Spec[CaseA]{
 		Property: "C04", Sub: "a",
-		Rule: "histories of 1-24 operations on 1-3 agents registered through the real agent endpoint: operator task (TaskPrepare + AddJobToQueue as dispatch.go does, 11 command templates), raw job of a size class {no data, small, 1 MiB, just below / exactly at / just above the limit alone, 31 MiB, 'fill' = cumulative queue size lands on limit-1/limit/limit+1}, relay job (SOCKS write, request id 0), chunked fs-upload (0-8 KiB), check-in with / without GET_JOB; at the end every queue is drained. Oracle per check-in: decoded reply is a prefix of the FIFO model (command, request id, body), no-job reply only if nothing queued, several tasks together never exceed the limit, a cut is maximal; after draining one more check-in is a no-job reply. Non-trivial: some check-in saw >=2 queued tasks, or a size cut, or a single task at/above the limit delivered alone; distinct = (#agents, max queued bucket, cut, escape, exact-boundary, multi-task reply, op-kind set, no-GET_JOB check-in)",
+		Rule: "histories of 1-24 operations on a forest of 1-4 agents - directly connected ones registered through the real agent endpoint, pivot agents (chains of depth 1-3) linked through the real, relayed SMB_CONNECT callback; every agent id drawn from {<2^31, >=2^31, 2^31-1, 2^31, 2^32-1, leading zero digits}; every enqueue operation may target any agent, check-ins happen at the directly connected agent of the target's chain, where a pivot agent's task must come out wrapped hop by hop (unwrapped with each hop's key and SmbRecv's frame rules), in queue order with everything else queued there: operator task (TaskPrepare + AddJobToQueue as dispatch.go does, 11 command templates), raw job of a size class {no data, small, 1 MiB, just below / exactly at / just above the limit alone, 31 MiB, 'fill' = cumulative queue size lands on limit-1/limit/limit+1}, relay job (SOCKS write, request id 0), chunked fs-upload (0-8 KiB), check-in with / without GET_JOB; at the end every queue is drained. Oracle per check-in: decoded reply is a prefix of the FIFO model (command, request id, body), no-job reply only if nothing queued, several tasks together never exceed the limit, a cut is maximal; after draining one more check-in is a no-job reply. Non-trivial: some check-in saw >=2 queued tasks, or a size cut, or a single task at/above the limit delivered alone; distinct = (deepest pivot target, an id >= 2^31 on a wrapped hop, max queued bucket, cut, escape, exact-boundary, op-kind set)",
 		Gen:  genA, Check: checkA, Classify: classifyA,
 		Assumptions: []string{
 			"sizes are compared with a tolerance band: a multi-task reply violates the bound only if its payload without length prefixes exceeds the limit; a cut violates maximality only if reply + next task incl. 12-byte headers stay below the limit (the statement fixes neither the size measure nor >= vs >)",
